@@ -59,3 +59,14 @@ package values
 //@ schema values_int_bitop(M=BitwiseAnd, F=tcand)
 //@ schema values_int_shift(M=BitwiseLeftShift, F=shl)
 //@ schema values_int_shift(M=BitwiseRightShift, F=shr)
+
+// ---- conversions (C16)
+//@ func (IntValue).ToInt
+//@   requires valid(v)
+//@   nofail
+//@   ensures[C16] iff(result1 != nil, !inrange(num(v), -pow2(63), pow2(63) - 1))
+//@   ensures[C16] result1 != nil ==> kind(result1) == OverflowError
+//@   ensures[C16] result1 == nil ==> result0 == num(v)
+//@ func (UFix64Value).ToInt
+//@   nofail
+//@   ensures[C16] result1 == nil && result0 == ediv(v, 100000000)
